@@ -84,27 +84,7 @@ func c18LookupOn(tf string) instrPred {
 
 // c18Found is the atom "the key is present in map field tf" (comma-ok result
 // of a lookup, or the looked-up value compared with nil).
-func c18Found(tf string) core.Atom {
-	isLookup := c18LookupOn(tf)
-	commaOK := func(v ssa.Value) bool {
-		e, ok := v.(*ssa.Extract)
-		if !ok || e.Index != 1 {
-			return false
-		}
-		l, ok := e.Tuple.(*ssa.Lookup)
-		return ok && l.CommaOk && isLookup(l)
-	}
-	val := func(v ssa.Value) bool {
-		v = core.Forward(v)
-		if e, ok := v.(*ssa.Extract); ok && e.Index == 0 {
-			l, ok := e.Tuple.(*ssa.Lookup)
-			return ok && isLookup(l)
-		}
-		l, ok := v.(*ssa.Lookup)
-		return ok && !l.CommaOk && isLookup(l)
-	}
-	return core.AnyOf(core.BoolVal(commaOK), core.Cmp(token.NEQ, val, core.IsNil))
-}
+func c18Found(tf string) core.Atom { return c18FoundBy(c18LookupOn(tf), nil) }
 
 var c18Unlocks = map[string]bool{"(*sync.Mutex).Unlock": true, "(*sync.RWMutex).Unlock": true, "(*sync.RWMutex).RUnlock": true, "(sync.Locker).Unlock": true}
 
@@ -230,7 +210,10 @@ func c18GroupFns(p *core.Prog, inPkg map[*ssa.Function]bool, typ string) []*ssa.
 		seen[f] = true
 		out = append(out, f)
 		for _, a := range f.AnonFuncs {
-			add(a)
+			// not the literals that a program variant inlined where they were applied and hid as dead code
+			if inPkg[a] {
+				add(a)
+			}
 		}
 		for _, b := range f.Blocks {
 			for _, in := range b.Instrs {
@@ -569,8 +552,16 @@ func c18(r *core.Run) {
 				if len(holds) == 0 {
 					o.Fail(p.Pos(f.Pos()), "%s does not test the outcome of the lookup", core.FuncName(f))
 				}
-				if w, ok := core.Reach(core.Q{From: c18Heads(holds), Target: core.Or(core.IsReturn, isLookup), Blocked: isWait}); ok {
-					o.Fail(p.InstrPos(w), "%s: a caller that found a call in progress goes on without waiting for it", core.FuncName(f))
+				// per lookup: a path that starts where this lookup's outcome is "found" and does not run the
+				// lookup again (such a path ends at the lookup: it is a target) cannot take an edge on which
+				// the same outcome tests "not found" (`if done { return }` inside the critical section,
+				// `if done { wait }` after it)
+				for _, l := range ls {
+					foundL := c18FoundBy(isLookup, l.(*ssa.Lookup))
+					holdsL, failsL := core.EdgesOf(f, foundL)
+					if w, ok := core.Reach(core.Q{From: c18Heads(holdsL), Target: core.Or(core.IsReturn, isLookup), Blocked: isWait, Cut: core.CutSet(failsL)}); ok {
+						o.Fail(p.InstrPos(w), "%s: a caller that found a call in progress goes on without waiting for it", core.FuncName(f))
+					}
 				}
 			}
 			o.Site(n)
@@ -827,6 +818,22 @@ func c18(r *core.Run) {
 			}
 			for _, s := range sites {
 				n++
+				// the flag is the outcome of the lookup itself (carried in a named result): right on every
+				// path with positive polarity, wrong on every path when negated
+				fv, fneg := c18Fwd(s.val), false
+				for {
+					u, ok := fv.(*ssa.UnOp)
+					if !ok || u.Op != token.NOT {
+						break
+					}
+					fv, fneg = c18Fwd(u.X), !fneg
+				}
+				if m, pos := c18Found(tf)(fv); m {
+					if pos == fneg {
+						o.Fail(p.InstrPos(s.in), "%s reports done=%s: true when the key was absent and false when a call was found in progress", core.FuncName(c), core.Describe(s.val))
+					}
+					continue
+				}
 				_, fromFound := core.Reach(core.Q{From: c18Heads(holds), Target: core.Is(s.in)})
 				switch {
 				case fromFound && !c18IsConstBool(s.val, true):
